@@ -134,6 +134,7 @@ def nvStore (s : St) (writeAll : Bool) (rc : Nat) : St :=
 structure Obs where
   rc : Nat
   out : Bytes := []
+  stored : Bool := false               -- the command handed the permanent state to the storage callback
 deriving Repr, DecidableEq
 
 def be16 (n : Nat) : Bytes := [UInt8.ofNat (n / 256), UInt8.ofNat n]
@@ -228,7 +229,7 @@ def nvWrite (s : St) (tag : Tag) (loc : Nat) (hw : Bool) (idx off : Nat) (d : By
     let r := writeRefusalDir s tag off d.length
     if r ≠ 0 then (s, { rc := r }) else
     if d.length = 0 then (s, { rc := 0 })
-    else (store { s with mem := bump { s.mem with dir := d } tag }, { rc := 0 })
+    else (store { s with mem := bump { s.mem with dir := d } tag }, { rc := 0, stored := true })
   else
   match lookup s.mem idx with
   | none => (s, { rc := TPM_BADINDEX })
@@ -240,12 +241,75 @@ def nvWrite (s : St) (tag : Tag) (loc : Nat) (hw : Bool) (idx off : Nat) (d : By
       -- a successful write also clears bReadSTClear
       let a' := { a with writeSt := true, writeDef := true, readSt := false }
       if a.writeDef then ({ s with mem := setArea s.mem a' }, { rc := 0 })
-      else (store { s with mem := bump (setArea s.mem a') tag }, { rc := 0 })
+      else (store { s with mem := bump (setArea s.mem a') tag }, { rc := 0, stored := true })
     else
       let a' := { a with data := patch a.data off d, readSt := false }
       -- "wearout optimization": nothing is stored when the bytes are already there
       if slice a.data off d.length = d then ({ s with mem := setArea s.mem a' }, { rc := 0 })
-      else (store { s with mem := bump (setArea s.mem a') tag }, { rc := 0 })
+      else (store { s with mem := bump (setArea s.mem a') tag }, { rc := 0, stored := true })
+
+/-! ### TPM_NV_WriteValueAuth / TPM_NV_ReadValueAuth (authorized with the area's own authValue; `ok` = HMAC correct)
+
+    These ordinals use `TPM_CHECK_ALL` (an owner must be installed) and honour every permission check whatever
+    nvLocked says. -/
+
+def checkStateOwner (s : St) : Nat :=
+  let cs := checkState s
+  if cs ≠ 0 then cs else if !s.mem.ownerInstalled then TPM_NOSRK else 0
+
+def writeAuthRefusal (s : St) (ok : Bool) (loc : Nat) (hw : Bool) (a : Area) (off len : Nat) : Nat :=
+  if !has a.attrs TPM_NV_PER_AUTHWRITE then TPM_AUTH_CONFLICT
+  else if !ok then TPM_AUTHFAIL
+  else if has a.attrs TPM_NV_PER_PPWRITE && !presence s hw then TPM_BAD_PRESENCE
+  else if a.locWrite ≠ TPM_LOC_ALL && !locAllowed a.locWrite loc then TPM_BAD_LOCALITY
+  else if has a.attrs TPM_NV_PER_WRITEDEFINE && a.writeDef then TPM_AREA_LOCKED
+  else if has a.attrs TPM_NV_PER_GLOBALLOCK && s.globalLock then TPM_AREA_LOCKED
+  else if has a.attrs TPM_NV_PER_WRITE_STCLEAR && a.writeSt then TPM_AREA_LOCKED
+  else if len = 0 then 0
+  else if off + len ≥ M32 || off + len > a.size then TPM_NOSPACE
+  else if has a.attrs TPM_NV_PER_WRITEALL && len ≠ a.size then TPM_NOT_FULLWRITE
+  else 0
+
+def nvWriteAuth (s : St) (ok : Bool) (loc : Nat) (hw : Bool) (idx off : Nat) (d : Bytes) : St × Obs :=
+  let cs := checkStateOwner s
+  if cs ≠ 0 then (s, { rc := cs }) else
+  match lookup s.mem idx with
+  | none => (s, { rc := TPM_BADINDEX })
+  | some a =>
+    let r := writeAuthRefusal s ok loc hw a off d.length
+    if r ≠ 0 then (s, { rc := r }) else
+    if d.length = 0 then
+      let a' := { a with writeSt := true, writeDef := true, readSt := false }
+      if a.writeDef then ({ s with mem := setArea s.mem a' }, { rc := 0 })
+      else (store { s with mem := setArea s.mem a' }, { rc := 0, stored := true })
+    else
+      let a' := { a with data := patch a.data off d, readSt := false }
+      if slice a.data off d.length = d then ({ s with mem := setArea s.mem a' }, { rc := 0 })
+      else (store { s with mem := setArea s.mem a' }, { rc := 0, stored := true })
+
+def readAuthRefusal (s : St) (ok : Bool) (loc : Nat) (hw : Bool) (a : Area) (off n : Nat) : Nat :=
+  if !has a.attrs TPM_NV_PER_AUTHREAD then TPM_AUTH_CONFLICT
+  else if !ok then TPM_AUTHFAIL
+  else if has a.attrs TPM_NV_PER_PPREAD && !presence s hw then TPM_BAD_PRESENCE
+  else if a.locRead ≠ TPM_LOC_ALL && !locAllowed a.locRead loc then TPM_BAD_LOCALITY
+  else if has a.attrs TPM_NV_PER_READ_STCLEAR && a.readSt then TPM_DISABLED_CMD
+  else if n = 0 then 0
+  else if off + n ≥ M32 || off + n > a.size then TPM_NOSPACE else 0
+
+def nvReadAuth (s : St) (ok : Bool) (loc : Nat) (hw : Bool) (idx off n : Nat) : St × Obs :=
+  let cs := checkStateOwner s
+  if cs ≠ 0 then (s, { rc := cs }) else
+  match lookup s.mem idx with
+  | none => (s, { rc := TPM_BADINDEX })
+  | some a =>
+    let r := readAuthRefusal s ok loc hw a off n
+    if r ≠ 0 then (s, { rc := r }) else
+    if n = 0 then ({ s with mem := setArea s.mem { a with readSt := true } }, { rc := 0, out := be32 0 })
+    else (s, { rc := 0, out := be32 n ++ slice a.data off n })
+
+/-- a successful TPM_TakeOwnership: an owner is installed and the permanent state is stored -/
+def takeOwnership (s : St) : St × Obs :=
+  (store { s with mem := { s.mem with ownerInstalled := true } }, { rc := 0, stored := true })
 
 /-! ### TPM_NV_DefineSpace -/
 
@@ -299,20 +363,20 @@ def nvDefine (s : St) (tag : Tag) (hw : Bool) (idx attrs size lr lw : Nat) : St 
   if idx = TPM_NV_INDEX_LOCK && tag.isRqu then
     if size ≠ 0 then (s, { rc := TPM_BADINDEX })
     else if s.mem.nvLocked then (s, { rc := 0 })
-    else (store { s with mem := { s.mem with nvLocked := true } }, { rc := 0 })
+    else (store { s with mem := { s.mem with nvLocked := true } }, { rc := 0, stored := true })
   else
   let r1 := defineRefusal1 s tag hw idx size
   if r1 ≠ 0 then (s, { rc := r1 }) else
   let old := lookup s.mem idx
   let s1 : St := { s with mem := remove s.mem idx }           -- 6.d: the old area is deleted (nothing if there is none)
-  if old.isSome && size = 0 then (store { s1 with mem := bump s1.mem tag }, { rc := 0 }) else
+  if old.isSome && size = 0 then (store { s1 with mem := bump s1.mem tag }, { rc := 0, stored := true }) else
   let r2 := defineRefusal2 s1.mem idx attrs size lr
   if r2 ≠ 0 then (nvStore s1 old.isSome r2, { rc := r2 }) else
   if idx = TPM_NV_INDEX_TRIAL then
     -- trial: nothing is defined; noOwnerNVWrite is advanced in memory without a store
-    (nvStore { s1 with mem := bump s1.mem tag } old.isSome 0, { rc := 0 })
+    (nvStore { s1 with mem := bump s1.mem tag } old.isSome 0, { rc := 0, stored := old.isSome })
   else
-  (store { s1 with mem := bump { s1.mem with areas := s1.mem.areas ++ [newArea idx attrs size lr lw] } tag }, { rc := 0 })
+  (store { s1 with mem := bump { s1.mem with areas := s1.mem.areas ++ [newArea idx attrs size lr lw] } tag }, { rc := 0, stored := true })
 
 /-! ### TSC_PhysicalPresence -/
 
@@ -340,7 +404,7 @@ def tscPP (s : St) (v : Nat) : St × Obs :=
       let m := if has v TPM_PHYSICAL_PRESENCE_CMD_DISABLE then { m with ppCmd := false } else m
       let m := if has v TPM_PHYSICAL_PRESENCE_LIFETIME_LOCK then { m with ppLife := true } else m
       -- TPM_SetCapability_Flag: stored only when a flag changed
-      (if m = s.mem then s else store { s with mem := m }, { rc := 0 })
+      (if m = s.mem then s else store { s with mem := m }, { rc := 0, stored := m ≠ s.mem })
   else if a2 ≠ 0 then
     if !s.mem.ppCmd then bad
     else if has v TPM_PHYSICAL_PRESENCE_LOCK && has v TPM_PHYSICAL_PRESENCE_PRESENT then bad
@@ -408,6 +472,10 @@ inductive Op
   | define (tag : Tag) (hw : Bool) (idx attrs size lr lw : Nat)
   | write (tag : Tag) (loc : Nat) (hw : Bool) (idx off : Nat) (d : Bytes)
   | read (tag : Tag) (loc : Nat) (hw : Bool) (idx off n : Nat)
+  | writeAuth (ok : Bool) (loc : Nat) (hw : Bool) (idx off : Nat) (d : Bytes)
+  | readAuth (ok : Bool) (loc : Nat) (hw : Bool) (idx off n : Nat)
+  | takeOwnership                       -- a TPM_TakeOwnership that succeeded
+  | stored                              -- some other ordinal stored the permanent state (e.g. tpmEstablished changed)
   | saveState
   | getPub (idx : Nat)                  -- TPM_GetCapability(TPM_CAP_NV_INDEX)
   | other                               -- any other ordinal
@@ -423,6 +491,10 @@ def step (s : St) : Op → St × Obs
   | .define tag hw idx attrs size lr lw => nvDefine (invalidateSaved s) tag hw idx attrs size lr lw
   | .write tag loc hw idx off d => nvWrite (invalidateSaved s) tag loc hw idx off d
   | .read tag loc hw idx off n => nvRead (invalidateSaved s) tag loc hw idx off n
+  | .writeAuth ok loc hw idx off d => nvWriteAuth (invalidateSaved s) ok loc hw idx off d
+  | .readAuth ok loc hw idx off n => nvReadAuth (invalidateSaved s) ok loc hw idx off n
+  | .takeOwnership => takeOwnership (invalidateSaved s)
+  | .stored => (store s, { rc := 0, stored := true })
   | .saveState => saveState (invalidateSaved s)
   | .getPub idx =>
       let s := invalidateSaved s
